@@ -49,7 +49,8 @@ fn backward_error(c: &[C], z: C) -> f64 {
 
 const BE_REFINED: f64 = 1e-9;
 const BE_UNREFINED_SMALL: f64 = 1e-9;
-const BE_UNREFINED_LARGE: f64 = 1e-2;
+/// since the deflation fix (e47d5b8) a large root costs nothing: worst observed 1.2e-14 over 2e7 polynomials
+const BE_UNREFINED_LARGE: f64 = 1e-9;
 /// linear / quadratic closed forms are backward stable: rounding level
 const BE_QUADRATIC: f64 = 1e-12;
 /// Cardano's formula on coefficients of mixed scale loses digits (worst observed 7.7e-10 on the wide-scale lattice)
@@ -352,6 +353,59 @@ fn high_degree_space(ctx: &Ctx, maxbase: usize) {
     );
 }
 
+/// nearly binomial polynomials lead*x^n + a*x^k + c: from the start value 0 Laguerre's step lands far outside the roots
+/// (on -c/a) and the step from there returns to the centroid, a two-cycle unless the step is bounded by the root radius
+fn near_binomial_space(ctx: &Ctx, nmax: usize) {
+    let cs: Vec<C> = vec![(10., 0.), (-50., 0.), (1e3, 0.), (-1e3, 0.), (0., 1e3), (1e4, 0.), (0., -1e5), (1e6, 0.), (2., 0.), (1e-3, 0.)];
+    let aa: Vec<C> = vec![(0., 0.), (1., 0.), (-1., 0.), (0., 1.), (1e-3, 0.), (0., -1e-3), (3., 0.)];
+    let ld: Vec<C> = vec![(1., 0.), (-2., 0.), (0., 1.)];
+    let mut cases = vec![];
+    for n in 4..=nmax {
+        for k in [1usize, 2, n - 1] {
+            for ci in 0..cs.len() {
+                for ai in 0..aa.len() {
+                    for li in 0..ld.len() {
+                        cases.push((n, k, ci, ai, li));
+                    }
+                }
+            }
+        }
+    }
+    ctx.lattice(
+        &format!("nearly binomial lead*x^n + a*x^k + c: n in 4..{}, k in {{1,2,n-1}}, 10 constants up to 1e6, 7 middle coefficients, 3 leads x refine", nmax),
+        cases.len() as u64 * 2,
+        |idx| format!("{:?} refine={}", cases[(idx / 2) as usize], idx % 2 == 1),
+        |idx, acc| {
+            let (n, k, ci, ai, li) = cases[(idx / 2) as usize];
+            let refine = idx % 2 == 1;
+            let mut c: Vec<C> = vec![(0., 0.); n + 1];
+            c[0] = cs[ci];
+            c[k] = aa[ai];
+            c[n] = ld[li];
+            acc.nontriv("nearly binomial polynomial");
+            let key = || format!("near-binomial coeffs={:?} refine={}", c, refine);
+            let mut local = Acc::new("t");
+            let res = catch(|| -> Result<(), String> {
+                let g = run_cmplx(&c, refine);
+                judge_roots(&c, &g, refine, true, &mut local, "near-binomial")?;
+                // real coefficients: the f64 entry point must agree bit for bit
+                if c.iter().all(|z| z.1 == 0.0) {
+                    let pr = Polynomial::<f64>::new(c.iter().map(|z| z.0).collect());
+                    let gr: Vec<C> = pr.roots(refine).vec.iter().map(|z| (z.real, z.imag)).collect();
+                    judge_roots(&c, &gr, refine, true, &mut local, "near-binomial (f64 entry)")?;
+                }
+                Ok(())
+            });
+            acc.merge_worst(local);
+            match res {
+                Ok(Ok(())) => {}
+                Ok(Err(e)) => acc.fail(idx, key(), e),
+                Err(p) => acc.fail(idx, key(), format!("unexpected panic: {}", p)),
+            }
+        },
+    );
+}
+
 /// wide-scale complex coefficient lattice: mixed scale (1e-3 .. 1e3) and purely imaginary coefficients
 fn wide_scale_space(ctx: &Ctx, deg: usize) {
     let letters: Vec<C> = vec![(1., 0.), (0., 1.), (1e3, 0.), (-1e3, 0.), (0., 1e3), (0., -1e3), (1e-3, 0.), (-1e-3, 0.), (0., 1e-3), (0., -1e-3)];
@@ -514,27 +568,26 @@ impl mc::bfs::Sut for St {
 fn main() {
     let ctx = Ctx::from_args("C10");
     ctx.level("model_checking");
-    ctx.rule("E2: BFS over histories in which a polynomial object is queried for its roots, edited (index writes, coeffs() writes / push / pop, trim) and queried again: the answers must be bit-identical to those of a freshly built polynomial and pass the root oracle; plus a wide-scale complex coefficient lattice (1, i, +-1e3, +-1e3 i, +-1e-3, +-1e-3 i) of degree 2, 3 (4 thorough). E1: (a) every multiset of 1..5 (quick) / 1..7 (thorough) roots from {0,+-1,+-i,2,1/2,1+-i,-3,1e3,1e-3} x leading coefficient {1,-2,3i,1e3} x refine, through Polynomial<Cmplx>::roots; conjugate-closed multisets through Polynomial<f64>::roots; (b) every coefficient vector over 5 integer / Gaussian-integer letters with non-zero lead for degree 1..4 (thorough 5); (c) degree 8..12 products with x^k-1. Oracle: exactly n finite values; |p(z)|/(max|a_k| max(1,|z|)^n) <= 1e-9 (refined, and unrefined when all roots are below 10 in modulus; 1e-2 unrefined with a root 1e3); simple roots separated by >= 1/2 are matched one-to-one within 1e-6 (refined); degree 0 is rejected. Non-trivial: roots at zero, repeated roots, non-real roots, vanishing inner coefficients, iterative path.");
+    ctx.rule("E2: BFS over histories in which a polynomial object is queried for its roots, edited (index writes, coeffs() writes / push / pop, trim) and queried again: the answers must be bit-identical to those of a freshly built polynomial and pass the root oracle. E1: (a) every multiset of 1..7 (quick) / 1..11 (thorough) roots from {0,+-1,+-i,2,1/2,1+-i,-3,1e3,1e-3} x leading coefficient {1,-2,3i,1e3} x refine, through Polynomial<Cmplx>::roots; conjugate-closed multisets up to degree 7 / 12 through Polynomial<f64>::roots; (b) every coefficient vector over 5 integer / Gaussian-integer letters with non-zero lead for degree 1..6 (thorough 9); (c) degree 8..12 products of every integer polynomial of degree <= 4 (thorough 7) with x^k-1; (d) nearly binomial polynomials lead x^n + a x^k + c, n = 4..12, |c| up to 1e6; (e) EVERY coefficient vector over the wide-scale complex letters {1, i, +-1e3, +-1e3 i, +-1e-3, +-1e-3 i} for degree 2..5 (thorough 6). Oracle: exactly n finite values; |p(z)|/(max|a_k| max(1,|z|)^n) <= 1e-9 with and without refinement (1e-12 for the linear/quadratic closed forms, 1e-7 for Cardano); simple roots separated by >= 1/2 are matched one-to-one within 1e-6 (refined); degree 0 is rejected. Non-trivial: roots at zero, repeated roots, non-real roots, vanishing inner coefficients, iterative path, root ratio up to 1e6.");
     ctx.assume("multisets with more than one root of modulus 1e3 or 1e-3 are skipped: their coefficient ratio exceeds the 1e6 of the property's domain");
     ctx.threshold("backward_error_refined", BE_REFINED);
     ctx.threshold("backward_error_unrefined_roots_below_10", BE_UNREFINED_SMALL);
     ctx.threshold("backward_error_unrefined_with_root_1e3", BE_UNREFINED_LARGE);
     ctx.threshold("backward_error_unrefined_closed_form_degree_1_2", BE_QUADRATIC);
     ctx.threshold("backward_error_unrefined_cardano_degree_3", BE_CARDANO);
-    ctx.require(&["repeated root", "root at zero", "non-real root", "iterative path (degree >= 4)", "closed-form path (degree <= 3)", "vanishing inner coefficient", "conjugate pair", "matched against the true roots", "degree 8..12", "coefficients of mixed scale (ratio up to 1e6)", "coefficient written through IndexMut after a roots() call", "history state of degree >= 4"]);
-    for k in 1..=ctx.pick(5, 7) {
+    ctx.require(&["repeated root", "root at zero", "non-real root", "iterative path (degree >= 4)", "closed-form path (degree <= 3)", "vanishing inner coefficient", "conjugate pair", "matched against the true roots", "degree 8..12", "coefficients of mixed scale (ratio up to 1e6)", "coefficient written through IndexMut after a roots() call", "history state of degree >= 4", "nearly binomial polynomial"]);
+    for k in 1..=ctx.pick(7, 11) {
         multiset_space(&ctx, k);
     }
-    real_space(&ctx, ctx.pick(5, 7));
-    for d in 1..=ctx.pick(4, 5) {
+    real_space(&ctx, ctx.pick(7, 12));
+    for d in 1..=ctx.pick(6, 9) {
         coeff_space(&ctx, d, false);
         coeff_space(&ctx, d, true);
     }
-    high_degree_space(&ctx, ctx.pick(2, 4));
-    wide_scale_space(&ctx, 2);
-    wide_scale_space(&ctx, 3);
-    if ctx.thorough() {
-        wide_scale_space(&ctx, 4);
+    high_degree_space(&ctx, ctx.pick(4, 7));
+    near_binomial_space(&ctx, 12);
+    for d in 2..=ctx.pick(5, 6) {
+        wide_scale_space(&ctx, d);
     }
     {
         let depth = ctx.pick(3, 4);
